@@ -30,7 +30,8 @@ ASSUMPTIONS = [
 MINIMUMS = {
     'quick': {'evaluations': 1500, 'applied_ok': 700, 'edit:alias-created': 100, 'edit:alias-broken': 60,
               'edit:subtree-moved': 100, 'edit:callable-incompatible': 60, 'edit:tag-added': 100,
-              'identity_sharing_pairs': 150, 'unrelated_pairs': 80, 'empty_diff_checked': 300},
+              'identity_sharing_pairs': 150, 'unrelated_pairs': 80, 'empty_diff_checked': 300,
+              'pairs_with_registered_custom_container': 150},
     'thorough': {'evaluations': 1000},
 }
 
@@ -42,7 +43,7 @@ LEAVES = [0, 1, -7, 2.5, 'a', 'a longer string value to make containers big enou
 
 
 def plan(tier):
-  n = 100 if tier == 'quick' else 15000
+  n = 160 if tier == 'quick' else 15000
   return [{'name': f's{i}', 'kind': 'main', 'n': n, 'start': i * n} for i in range(16)]
 
 
@@ -85,12 +86,13 @@ def has_tuple_with_nonleaf(root):
              and any(not isinstance(c, gen.Leaf) for c in n.items) for n in gen.walk(root))
 
 
-def gen_pair(rng, acc, pos_fraction=0.15, exclude_edits=()):
+def gen_pair(rng, acc, pos_fraction=0.15, exclude_edits=(), extra_containers=()):
   """Returns (old_root, new_root, edits, mode, old, new) or None."""
   use_pos = rng.random() < pos_fraction
   opts = gen.Opts(max_nodes=rng.choice([3, 6, 10]), max_depth=4, p_share=0.3, p_clone=0.1,
                   btypes=['Config', 'Config', 'Partial'], fns=FNS + (POS_FNS if use_pos else []),
-                  lattice=0.0, leaves=LEAVES, containers=['list', 'tuple', 'dict', 'dict', 'point'],
+                  lattice=0.0, leaves=LEAVES,
+                  containers=['list', 'tuple', 'dict', 'dict', 'point'] + list(extra_containers),
                   explicit_tags=0.3, dict_keys=['k1', 'k2', 'k3', 4, 'a b'], uid=False)
   g = gen.DagGen(rng, opts)
   root_btype = rng.choice(['Config', 'Partial'])
@@ -141,8 +143,76 @@ def gen_pair(rng, acc, pos_fraction=0.15, exclude_edits=()):
   return old_root, new_root, edits, mode, old, new
 
 
+def custom_container_pair(rng, acc):
+  """A user-registered container type (not a Sequence / dict / Buildable, structural ==) at the
+  same place in old and new, with plain value edits inside it - no sharing, no moved subtrees
+  (what diffing does with aliases into such containers is outside this workload)."""
+  def box():
+    return gen.Seq('latebox', [gen.Leaf(rng.choice(LEAVES)),
+                               gen.B('Config', kinds.two, kw={'x': gen.Leaf(rng.choice(LEAVES))}),
+                               gen.Leaf(rng.choice(LEAVES))][:rng.choice([2, 3])])
+  kw = {'a': box(), 'b': gen.Leaf(rng.choice(LEAVES))}
+  if rng.random() < 0.5:
+    kw['c'] = gen.Seq('list', [box(), gen.Leaf(1)])
+  old_root = gen.B(rng.choice(['Config', 'Partial']), kinds.three, kw=kw)
+  new_root, _ = dagedit.structural_clone(old_root)
+  boxes = [n for n in gen.walk(new_root) if isinstance(n, gen.Seq) and n.typ == 'latebox']
+  edits = []
+  done = set()
+  for _ in range(rng.randint(1, 2)):
+    bx = rng.choice(boxes)
+    r = rng.random()
+    if r < 0.5:
+      # (each position is edited at most once: the new leaf must be != the OLD one - a container
+      # type whose == says True == 1 is equal to its twin as far as diffing can tell)
+      cands = [i for i, c in enumerate(bx.items) if isinstance(c, gen.Leaf) and (bx.uid, i) not in done]
+      if not cands:
+        continue
+      i = rng.choice(cands)
+      done.add((bx.uid, i))
+      bx.items[i] = gen.Leaf(rng.choice([v for v in LEAVES if v != bx.items[i].value] or [12345]))
+      edits.append('leaf-in-custom-container')
+    elif r < 0.8:
+      cfgs = [c for c in bx.items if isinstance(c, gen.B)]
+      if cfgs:
+        cfgs[0].kw['x'] = gen.Leaf(rng.choice(['changed', 77, None]))
+        edits.append('argument-of-config-in-custom-container')
+    else:
+      cfgs = [c for c in bx.items if isinstance(c, gen.B)]
+      if cfgs:
+        cfgs[0].kw['y'] = gen.Leaf('added')
+        edits.append('argument-added-in-custom-container')
+  acc.obs('pairs_with_registered_custom_container')
+  return old_root, new_root, edits, 'custom-container', gen.to_fiddle(old_root), gen.to_fiddle(new_root)
+
+
+def custom_box_equal_to_old_box_elsewhere(old_root, new_root):
+  def boxes(root):
+    out = {}
+    def go(n, path):
+      if isinstance(n, gen.Seq):
+        if n.typ == 'latebox':
+          out[path] = gen.to_fiddle(n)
+        for i, c in enumerate(n.items):
+          go(c, path + (i,))
+      elif isinstance(n, gen.Map):
+        for k, c in n.items:
+          go(c, path + (repr(k),))
+      elif isinstance(n, gen.B):
+        for i, c in enumerate(n.pos):
+          go(c, path + (i,))
+        for k, c in n.kw.items():
+          go(c, path + (k,))
+    go(root, ())
+    return out
+  bo, bn = boxes(old_root), boxes(new_root)
+  # (== as the container type defines it - that is what the alignment heuristic uses)
+  return any(cn == co and pn != po and not (pn in bo and bo[pn] == cn)
+             for pn, cn in bn.items() for po, co in bo.items())
+
+
 def run_case(rng, acc):
-  pair = gen_pair(rng, acc)
+  pair = custom_container_pair(rng, acc) if rng.random() < 0.15 else gen_pair(rng, acc)
   if pair is None:
     return
   old_root, new_root, edits, mode, old, new = pair
@@ -189,6 +259,10 @@ def run_case(rng, acc):
   if cgot != cnew:
     tree_equal = C.Canon('cfg-exact', sharing=False).go(target) == C.Canon('cfg-exact', sharing=False).go(new)
     what = 'sharing-differs' if tree_equal else 'values-differ'
+    if mode == 'custom-container' and custom_box_equal_to_old_box_elsewhere(old_root, new_root):
+      # diffing aligns a user-registered container of `new` with an == container that sits
+      # somewhere else in `old` (a "moved" value) while that old container is itself edited
+      what += ':custom-container-aligned-with-equal-old-container-elsewhere'
     acc.violation(f'patched-copy-differs-from-new:{what}',
                   'apply_diff(build_diff(old, new), copy of old) is not equal to new '
                   f'({what})', witness(diff=str(diff)[:800], got=safe_repr(target, 400)))
@@ -217,5 +291,8 @@ def run_case(rng, acc):
 
 
 def run_shard(spec, seed, acc):
+  # a user-registered container type (not a Sequence / dict / Buildable) with structural ==
+  from vt import nodes as vnodes
+  vnodes.register_latebox()
   for _, rng in acc.cases(spec):
     run_case(rng, acc)
